@@ -305,12 +305,21 @@ def lian_env(seed):
     return env
 
 
-def run_lian(proj, inp, sdir, cwd, wsrel, seed, harvest=None, extra_env=None, timeout=900, main_repo=None):
+def ws_arg(cwd, wsrel):
+    """what is passed to -w: `abs:<rel>` stands for the same directory given as an absolute path"""
+    return os.path.join(cwd, wsrel[4:]) if wsrel.startswith("abs:") else wsrel
+
+
+def ws_plain(wsrel):
+    return wsrel[4:] if wsrel.startswith("abs:") else wsrel
+
+
+def run_lian(proj, inp, sdir, cwd, wsrel, seed, harvest=None, extra_env=None, timeout=900, main_repo=None, cmd_override=None):
     """one lian process, started in directory `cwd` with the RELATIVE workspace `wsrel`: runs of the same
     project started in different directories then embed the same (relative) workspace paths in their
     outputs, and the files can be compared byte for byte.  returns dict(rc, secs, tail)."""
     os.makedirs(cwd, exist_ok=True)
-    argv = [proj.get("cmd", "run"), "-l", proj["lang"], "-w", wsrel, "-f"]
+    argv = [cmd_override or proj.get("cmd", "run"), "-l", proj["lang"], "-w", ws_arg(cwd, wsrel), "-f"]
     if proj.get("quiet", True):
         argv.append("-q")
     if sdir:
@@ -343,15 +352,19 @@ def ws_rel_root(wsrel):
 
 
 def ws_root(ws):
-    cwd, wsrel = ws
+    cwd, wsrel = ws[0], ws_plain(ws[1])
     return os.path.join(cwd, ws_rel_root(wsrel))
 
 
 def ws_tokens(ws):
-    """the byte strings that stand for 'this workspace' inside output files: the absolute path, and the
-    relative form the run was given."""
-    cwd, wsrel = ws
-    return [os.path.join(cwd, ws_rel_root(wsrel)), ws_rel_root(wsrel)]
+    """(string, placeholder) pairs that stand for 'this workspace' / 'this input location' inside output files:
+    the absolute workspace path, the relative form the run was given, and the input directory (the same project
+    may be analysed from a private copy).  Longest first."""
+    cwd, wsrel = ws[0], ws_plain(ws[1])
+    toks = [(os.path.join(cwd, ws_rel_root(wsrel)), "<WS>"), (ws_rel_root(wsrel), "<WS>")]
+    if len(ws) > 2 and ws[2]:
+        toks.append((ws[2], "<IN>"))
+    return sorted(toks, key=lambda t: -len(t[0]))
 
 
 def list_files(ws):
@@ -365,16 +378,22 @@ def list_files(ws):
     return out
 
 
+_NAMECHAR = r"(?![A-Za-z0-9_.\-])"        # a token stands for a directory: it must end at a path-component boundary
+
+
 def norm_str(s, ws):
-    for t in ws_tokens(ws):
-        s = s.replace(t, "<WS>")
+    for t, ph in ws_tokens(ws):
+        if t in s:
+            s = re.sub(re.escape(t) + _NAMECHAR, lambda m: ph, s)
     return s
 
 
 def norm_bytes(path, ws):
     data = open(path, "rb").read()
-    for t in ws_tokens(ws):
-        data = data.replace(t.encode(), b"<WS>")
+    for t, ph in ws_tokens(ws):
+        tb = t.encode()
+        if tb in data:
+            data = re.sub(re.escape(tb) + _NAMECHAR.encode(), lambda m: ph.encode(), data)
     return data
 
 
@@ -658,13 +677,35 @@ TRICKY_LINES = [
 ]
 
 
+def dotted_import_block(rng, nchains=5):
+    """overlapping dotted imports (prefix chains a.b / a.b.c / a.bc, also several on one line) and later lines that
+    use the overlapping text: whatever order the rewrites a.b -> a_b are applied in must not depend on the run"""
+    heads = _names(rng, nchains, ["pkg", "lib", "core", "app", "svc", "data", "net", "util", "conf", "auth", "repo", "task"])
+    subs = _names(rng, nchains, ["sub", "mod", "io", "api", "db", "fmt", "log", "cfg", "rpc", "ext", "aux", "gen"])
+    imports, uses = [], []
+    for h, b in zip(heads, subs):
+        c = rng.choice(["mod", "impl", "v2", "inner", "x"])
+        chain = [f"{h}.{b}", f"{h}.{b}.{c}", f"{h}.{b}{c}", f"{h}.{b}.{c}.deep"]
+        rng.shuffle(chain)
+        if rng.random() < 0.5:
+            imports.append("import " + ", ".join(chain[:2]))
+            imports += ["import " + x for x in chain[2:]]
+        else:
+            imports += ["import " + x for x in chain]
+        uses.append(f"    r_{h} = {h}.{b}.{c}.deep.handle({h}.{b}.run(key), {h}.{b}{c}.go(size), {h}.{b}.{c}.make())")
+        uses.append(f"    t_{h} = \"{h}.{b}.{c} stays text\"  # {h}.{b}.{c}.deep in a comment")
+    return imports, uses
+
+
 def gen_text(rng, nfun=3):
     """python sources with the character classes lian's text preprocessors look at: `%` between identifiers and
     strings, dotted module names inside string literals after `import a.b`, `$`, quotes, escapes, non-ASCII."""
-    L = ["import os.path", "import xml.dom.minidom", "from os import path as p", ""]
+    imports, uses = dotted_import_block(rng)
+    L = ["import os.path", "import xml.dom.minidom", "from os import path as p"] + imports + [""]
     for i in range(nfun):
         L.append(f"def fn{i}(key, size=3, label=\"x%s\"):")
         L.append("    slot = 0")
+        L += rng.sample(uses, min(len(uses), 4)) if i else uses
         for line in rng.sample(TRICKY_LINES, rng.randint(7, 12)):
             L.append("    " + line)
         L.append("    return slot")
@@ -696,6 +737,26 @@ def gen_names(rng, pc, nfiles=6):
     files[f"{root}/main.py"] = "import os.path\n\ndef main():\n    s = \"%s/%s\" % (\"a\", \"b\")\n    return s\n\nmain()\n"
     return {"kind": "names", "lang": "python", "files": files, "root": root,
             "settings": dict(SMALL_SETTINGS), "cmd": "semantic", "quiet": True}
+
+
+def gen_nested(rng, pc, nvar=10):
+    """a project that is meant to be analysed with the workspace INSIDE its own tree (`-w <project>` gives
+    <project>/lian_workspace): next to where the workspace will be it has directories whose names are prefix /
+    suffix variants of the workspace name and of the harvested layout constants (lian_workspace_tools, src2,
+    externs_old, old_frontend …), each holding a source file."""
+    base = [WSNAME] + [c for c in components_of(pc[1] + pc[2]) if re.match(r"^[A-Za-z_]+$", c) and WSNAME not in c]
+    variants = [WSNAME + "_tools", WSNAME + "2", "my_" + WSNAME, WSNAME[:-1], WSNAME + ".bak"]
+    pool = []
+    for c in base[1:]:
+        pool += [c + "2", c + "_old", "old_" + c, c + "s", c[:-1] if len(c) > 3 else c + "x"]
+    rng.shuffle(pool)
+    variants += pool[:nvar]
+    files = {"proj/main.py": "import os.path\n\ndef main(a, b=1, c=2):\n    return os.path.join(\"%s\" % a, \"x\")\n\nmain(1)\n"}
+    for k, v in enumerate(variants):
+        files[f"proj/{v}/unit{k}.py"] = f"def helper{k}(x, y={k}, z={k + 1}):\n    return x%y + z\n\nhelper{k}({k})\n"
+    files["proj/pkg/deep/" + WSNAME + "_notes/n.py"] = "def note(q):\n    return q\n\nnote(0)\n"
+    return {"kind": "nested", "lang": "python", "files": files, "settings": dict(SMALL_SETTINGS), "cmd": "semantic",
+            "quiet": True}
 
 
 # =====================================================================================================
@@ -736,6 +797,9 @@ def tie_requests(h):
     for r in h.get("mock_unit", []):
         out.append(("mock_unit", {"m": "determinism", "site": "mock_unit", "variant": "current",
                                   "is_extern": r["is_extern"], "unit_path": r["unit_path"]}, r["real"], {"unit": r["unit_path"]}))
+    for r in h.get("original_path", []):
+        out.append(("original_path", {"m": "determinism", "site": "original_path", "variant": "current", "table": r["table"],
+                                      "entry": r["entry"], "real": r["real"]}, r["real_out"], {"unit": r["entry"]}))
     for r in h.get("array_types", []):
         out.append(("array_types", {"m": "determinism", "site": "array_types", "variant": "current",
                                     "element_types": r["element_types"]}, r["real"], {}))
@@ -835,27 +899,57 @@ class Runner:
         inp, sdir = materialise(proj, os.path.join(self.scratch, "in", name))
         return {"name": name, "proj": proj, "inp": inp, "sdir": sdir}
 
-    def job(self, P, label, seed, wsrel="w", harvest=False, pre=None, repeat=1, extra_env=None, repo=None):
+    def job(self, P, label, seed, wsrel="w", harvest=False, pre=None, repeat=1, extra_env=None, repo=None,
+            inside=False, pre_same=None, pre_partial=None):
+        """inside: the project is copied to <run dir>/tree/<root> and that directory is BOTH the input and the -w
+        argument (the workspace then is <project>/lian_workspace, inside the analysed tree).
+        pre: another project analysed into a SIBLING workspace first.  pre_same: another project (another language)
+        analysed into THE SAME workspace first.  pre_partial: the same, but only its `lang` phase, and one of the
+        files it left is truncated — the state an aborted run leaves behind."""
         return {"P": P, "label": label, "seed": str(seed), "wsrel": wsrel, "harvest": harvest, "pre": pre,
-                "repeat": repeat, "extra_env": extra_env, "repo": repo,
-                "cwd": os.path.join(self.scratch, "run", P["name"], label)}
+                "repeat": repeat, "extra_env": extra_env, "repo": repo, "inside": inside, "pre_same": pre_same,
+                "pre_partial": pre_partial, "cwd": os.path.join(self.scratch, "run", P["name"], label)}
 
     def execute_one(self, j):
         P = j["P"]
         res = []
+        os.makedirs(j["cwd"], exist_ok=True)
         hv = os.path.join(j["cwd"], "harvest.json") if j["harvest"] else None
         env = dict(j["extra_env"] or {})
         if j["repo"]:
             env.update({"PYTHONPATH": os.path.join(j["repo"], "src"), "LIAN_REPO": j["repo"]})
+        inp, wsrel = P["inp"], j["wsrel"]
+        if j["inside"]:
+            root = P["proj"].get("root", "proj")
+            tree = os.path.join(j["cwd"], "tree", root)
+            if os.path.exists(tree):
+                shutil.rmtree(tree)
+            shutil.copytree(P["inp"], tree)
+            inp = tree
+            wsrel = ("abs:" if wsrel.startswith("abs:") else "") + os.path.join("tree", root)
         if j["pre"]:
             Q = j["pre"]
             res.append(run_lian(Q["proj"], Q["inp"], Q["sdir"], j["cwd"], "sibling_ws", j["seed"], extra_env=env))
+        for Q, partial in ((j["pre_same"], False), (j["pre_partial"], True)):
+            if not Q:
+                continue
+            res.append(run_lian(Q["proj"], Q["inp"], Q["sdir"], j["cwd"], wsrel, j["seed"], extra_env=env,
+                                cmd_override="lang" if partial else None, main_repo=j["repo"]))
+            if partial:
+                # an aborted run: nothing after the frontend, and the file being written is cut short
+                root_dir = os.path.join(j["cwd"], ws_rel_root(ws_plain(wsrel)))
+                for r, _, fs in sorted(os.walk(os.path.join(root_dir, "frontend"))):
+                    for f in sorted(fs)[:1]:
+                        fp = os.path.join(r, f)
+                        data = open(fp, "rb").read()
+                        with open(fp, "wb") as fh:
+                            fh.write(data[:len(data) // 2])
         for _ in range(j["repeat"]):
-            r = run_lian(P["proj"], P["inp"], P["sdir"], j["cwd"], j["wsrel"], j["seed"], harvest=hv, extra_env=env,
+            r = run_lian(P["proj"], inp, P["sdir"], j["cwd"], wsrel, j["seed"], harvest=hv, extra_env=env,
                          main_repo=j["repo"])
             res.append(r)
         j["res"] = res
-        j["ws"] = (j["cwd"], j["wsrel"])
+        j["ws"] = (j["cwd"], wsrel, inp)
         j["harvest_data"] = None
         if hv and os.path.exists(hv):
             try:
@@ -875,8 +969,40 @@ class Runner:
 
 def describe(j):
     d = {"label": j["label"], "seed": j["seed"], "wsrel": j["wsrel"], "repeat": j["repeat"],
-         "after_unrelated_project": bool(j["pre"]), "via_harvest_wrapper": bool(j["harvest"])}
+         "workspace_argument": ("<project dir> (workspace inside the analysed tree)" if j["inside"] else
+                                ("absolute path of " if j["wsrel"].startswith("abs:") else "relative path ") + ws_plain(j["wsrel"])),
+         "inside": bool(j["inside"]),
+         "after_unrelated_project": bool(j["pre"]),
+         "after_project_in_same_workspace": (j["pre_same"]["proj"]["lang"] if j["pre_same"] else None),
+         "after_aborted_run_in_same_workspace": (j["pre_partial"]["proj"]["lang"] if j["pre_partial"] else None),
+         "via_harvest_wrapper": bool(j["harvest"])}
     return d
+
+
+def other_lang_project(lang):
+    """a tiny fixed project in another language than `lang` whose language has extern mock files: what was analysed
+    in the workspace before"""
+    if lang == "javascript":
+        return {"kind": "pre:python", "lang": "python", "files": {"proj/old.py": "def old(a, b=1):\n    return a\n\nold(2)\n"},
+                "settings": dict(SMALL_SETTINGS), "cmd": "semantic", "quiet": True}
+    return {"kind": "pre:javascript", "lang": "javascript",
+            "files": {"proj/old.js": "function old(a, b) {\n  var c = [a, b];\n  return c;\n}\nold(1, 2);\n",
+                      "proj/lib/util.js": "function util(x) { return x + 1; }\nutil(3);\n"},
+            "settings": dict(SMALL_SETTINGS), "cmd": "semantic", "quiet": True}
+
+
+def job_from_desc(runner, P, label, d):
+    """rebuild a job from what `describe` recorded (shrinking, replay)"""
+    def Q(lang_of_pre):
+        if not lang_of_pre:
+            return None
+        return runner.prepare("pre_%s_%d" % (label, next(_uid)),
+                              other_lang_project("javascript" if lang_of_pre == "python" else "python"))
+    pre = runner.prepare("sib_%s_%d" % (label, next(_uid)), gen_defaults(random.Random(0), 1)) \
+        if d.get("after_unrelated_project") else None
+    return runner.job(P, label, d["seed"], wsrel=d.get("wsrel", "w"), repeat=d.get("repeat", 1), pre=pre,
+                      inside=d.get("inside", False), pre_same=Q(d.get("after_project_in_same_workspace")),
+                      pre_partial=Q(d.get("after_aborted_run_in_same_workspace")))
 
 
 def compare_jobs(base, other):
@@ -960,8 +1086,8 @@ def pair_fails(runner, proj, va, vb, file=None):
     """run the project under two variations; True when the outputs differ in content (in `file`, if given)"""
     name = "shrink%d" % next(_uid)
     P = runner.prepare(name, proj)
-    ja = runner.job(P, "a", va["seed"], wsrel=va.get("wsrel", "w"), repeat=va.get("repeat", 1))
-    jb = runner.job(P, "b", vb["seed"], wsrel=vb.get("wsrel", "w"), repeat=vb.get("repeat", 1))
+    ja = job_from_desc(runner, P, "a", va)
+    jb = job_from_desc(runner, P, "b", vb)
     ja, jb = runner.execute_one(ja), runner.execute_one(jb)
     runner.nproc += len(ja["res"]) + len(jb["res"])
     diffs, _, _ = compare_jobs(ja, jb)
@@ -1037,6 +1163,8 @@ def _run(ctx, proofs_ok, quick, scratch):
     pc = harvest_path_constants()
     for k in range(1 if quick else 2):
         projects.append((f"gen_names_{k}", gen_names(random.Random(rng.getrandbits(64)), pc), "generated"))
+    for k in range(1 if quick else 2):
+        projects.append((f"gen_nested_{k}", gen_nested(random.Random(rng.getrandbits(64)), pc), "generated"))
     locs = location_variants(pc, random.Random(rng.getrandbits(64)), 1 if quick else 3)
     cidx = [3, 6, 9] if quick else list(range(len(CORPUS)))
     for i in cidx:
@@ -1051,6 +1179,8 @@ def _run(ctx, proofs_ok, quick, scratch):
     seeds = ["1", "2"] if quick else ["1", "2", "12345", rand_seed]
     jobs = []
     unrelated = prepared[0]                         # a tiny project analysed into a sibling workspace first
+    others = {l: R.prepare("other_" + l, other_lang_project("python" if l == "javascript" else "javascript"))
+              for l in ("python", "javascript")}           # analysed into THE SAME workspace first
     full_var = set()
     located = set()
     wit_seeds = {"wit_" + w["name"]: [x for x in w.get("seeds_that_differ_on_pinned", []) if x != "0"] for w in corpus}
@@ -1080,6 +1210,19 @@ def _run(ctx, proofs_ok, quick, scratch):
             jobs.append(R.job(P, "sibling", "1", pre=other))
         for n, loc in enumerate(wit_locs.get(P["name"], [])):
             jobs.append(R.job(P, "witloc%d" % n, "0", wsrel=loc, harvest=True))
+        # the form and place of the workspace, and what the workspace held before (round 3)
+        lang = P["proj"]["lang"]
+        if r != "repo-tests" and (not quick or P["name"] in ("gen_text_0", "gen_nested_0", "gen_php_0")):
+            Q = others["python" if lang == "javascript" else "javascript"]
+            if not quick or P["name"] != "gen_php_0":
+                jobs.append(R.job(P, "absws", "0", wsrel="abs:w"))
+                jobs.append(R.job(P, "inside", "0", inside=True))
+            if not quick or P["name"] == "gen_nested_0":
+                jobs.append(R.job(P, "inside_abs", "1", wsrel="abs:w", inside=True))
+            if not quick or P["name"] != "gen_nested_0":
+                jobs.append(R.job(P, "same_ws_after_" + Q["proj"]["lang"], "0", pre_same=Q))
+            if not quick or P["name"] == "gen_text_0":
+                jobs.append(R.job(P, "same_ws_after_abort", "0", pre_partial=Q))
         # workspace locations whose directory names are the strings lian's own path tests look for
         if P["name"].startswith(("gen_text_", "gen_names_")) and (not quick or P["name"].endswith("_0")):
             mine_locs = list(locs.items()) if P["name"].startswith("gen_text_") else \
@@ -1147,7 +1290,7 @@ def _run(ctx, proofs_ok, quick, scratch):
                 n_bytes_only += 1
             # files whose bytes differ although the cells agree are only acceptable when the two runs
             # embed different workspace paths
-            if bo and o["wsrel"] == base["wsrel"]:
+            if bo and o["ws"][1] == base["ws"][1] and not o["ws"][1].startswith("abs:") and o["ws"][2] == base["ws"][2]:
                 diffs = diffs + [{"file": f, "what": "bytes differ although every cell is equal and the embedded "
                                                      "workspace paths are the same"} for f in bo]
             if diffs and diffs[0].get("file") == "<process>" and not o["pre"] and o["seed"] != "random":
@@ -1225,6 +1368,9 @@ def _run(ctx, proofs_ok, quick, scratch):
             for r in h.get("array_types", []):
                 preqs.append({"m": "determinism", "site": "array_types", "variant": "pinned", "type_set_iter": r["type_set_iter"]})
                 pmeta.append((j, "array_types", r["real"]))
+            for r in h.get("original_path", []):
+                preqs.append({"m": "determinism", "site": "original_path", "variant": "pinned", "table": r["table"], "entry": r["entry"]})
+                pmeta.append((j, "original_path", r["real_out"]))
             for r in h.get("mock_unit", []):
                 preqs.append({"m": "determinism", "site": "mock_unit", "variant": "pinned", "unit_path": r["unit_path"],
                               "marker": consts.get("mock_marker", "lian_workspace/externs")})
@@ -1251,7 +1397,7 @@ def _run(ctx, proofs_ok, quick, scratch):
     ctx.cov["rule"] = (
         f"{len(prepared)} projects ({sum(1 for r in role.values() if r == 'witness')} corpus witnesses, "
         f"{sum(1 for r in role.values() if r == 'generated')} generated from VERIF_SEED: defaults/keyword args, classes/inheritance, "
-        f"imports across files, taint flows with a custom settings dir, PHP require, TypeScript array literals, preprocessor-relevant text, harvested file names; "
+        f"imports across files, taint flows with a custom settings dir, PHP require, TypeScript array literals, preprocessor-relevant text, harvested file names, a tree with look-alike sibling directories; "
         f"{sum(1 for r in role.values() if r == 'repo-tests')} from $LIAN_REPO/tests in python/javascript/java), each analysed by lian in separate "
         f"processes: base PYTHONHASHSEED=0, then seeds {seeds}{' (witnesses: the seed that exposed the defect at the pinned commit; repo tests: the first only)' if quick else ' and PYTHONHASHSEED=random'}; "
         f"for {len(full_var)} projects also twice in a row into one workspace, from a workspace with a longer path, and after an unrelated project "
@@ -1259,8 +1405,12 @@ def _run(ctx, proofs_ok, quick, scratch):
         f"for {len(located)} projects also from workspace locations whose directory names are path-like string constants harvested by an "
         "ast walk of $LIAN_REPO/src/lian (operands of in/startswith/endswith/find/split/replace tests and of os.path.join; one location "
         "holds many constants as components). The `text` and `names` projects contain % formatting between identifiers and strings, "
-        "dotted module names inside string literals after `import a.b`, $, quotes, escapes, non-ASCII text, and input directory/file "
-        "names drawn from the same constants. "
+        "dotted module names inside string literals after `import a.b`, overlapping dotted imports (a.b / a.b.c / a.bc), $, quotes, "
+        "escapes, non-ASCII text, and input directory/file names drawn from the same constants. Round 3: the text, nested and php "
+        "projects (thorough: every non-repo project) are also analysed with -w given as an absolute path, with the workspace INSIDE "
+        "the analysed tree (-w <project>; the nested project has sibling directories whose names are prefix/suffix variants of "
+        "lian_workspace and of the harvested constants), after a project of ANOTHER LANGUAGE was analysed into the SAME workspace, "
+        "and after an aborted run (frontend only, one file truncated) in the same workspace. "
         "Every other run is compared with the base run over all files under frontend/ semantic_p1/ semantic_p2/ semantic_p3/ taint/ "
         "(bytes first; cell-wise via pandas on a byte difference). evaluations = lian processes started; a comparison counts as "
         "non-trivial (distinct_nontrivial) when it is a distinct (project, variation) pair whose base run produced a non-empty "
@@ -1276,7 +1426,7 @@ def _run(ctx, proofs_ok, quick, scratch):
                                   "wall_of_parallel_phase": round(t_exec, 1)}
     ctx.cov["path_constants"] = {"harvested": {str(k): len(v) for k, v in pc.items()},
                                  "tested_against_path_like_operands": pc[1], "workspace_locations": locs}
-    ctx.cov["uncovered"] = [site for site in ("map_args", "require", "array_types", "mock_unit", "bundle_export", "call_path_rows",
+    ctx.cov["uncovered"] = [site for site in ("map_args", "require", "array_types", "mock_unit", "original_path", "bundle_export", "call_path_rows",
                                               "number_modules", "path_batch") if not tie["per_site"].get(site)]
     fp = {}
     for rel in ("core/stmt_states.py", "util/loader.py", "preparation.py", "lang/typescript_parser.py", "common_structs.py",
@@ -1333,7 +1483,7 @@ def report_failures(ctx, R, failures):
         seen.add(sig)
         va, vb = describe(base), describe(other)
         proj = P["proj"]
-        simple = other["pre"] is None and other["repeat"] == 1 and other["seed"] != "random"
+        simple = other["seed"] != "random"
         if simple and len(seen) <= 2:
             try:
                 small = shrink_project(R, proj, lambda c: pair_fails(R, c, va, vb, d.get("file"))[0])
@@ -1369,11 +1519,8 @@ def replay(rp):
         R = Runner(scratch)
         P = R.prepare("replay", rp["project"])
         va, vb = rp["variation_a"], rp["variation_b"]
-        pre = None
-        if vb.get("after_unrelated_project"):
-            pre = R.prepare("other", gen_defaults(random.Random(0), 1))
-        ja = R.execute_one(R.job(P, "a", va["seed"], wsrel=va.get("wsrel", "w"), repeat=va.get("repeat", 1)))
-        jb = R.execute_one(R.job(P, "b", vb["seed"], wsrel=vb.get("wsrel", "w"), repeat=vb.get("repeat", 1), pre=pre))
+        ja = R.execute_one(job_from_desc(R, P, "a", va))
+        jb = R.execute_one(job_from_desc(R, P, "b", vb))
         diffs, _, _ = compare_jobs(ja, jb)
         print(json.dumps({"violates": bool(diffs),
                           "differences": [{k: v for k, v in d.items() if k not in ("row_a", "row_b")} for d in diffs[:5]]}))
